@@ -61,6 +61,7 @@ def build_session(u):
     cfg.priv_secret = g_password(u)[:300] or b"y"
     cfg.auth_kt = u.choice(["password", "master", "localized"])
     cfg.priv_kt = u.choice(["password", "master", "localized"])
+    cfg.shared_key_objects = u.below(3) == 0
     return {"kind": "session", "cfg": cfg, "api": u.choice(["raw", "raw_set_keys", "user"])}
 
 
@@ -311,12 +312,21 @@ def run(rep, tier):
 
     n = 1500 if tier == "quick" else 20000
     try:
-        core.run_hypothesis(rep, gen.case_strategy(build_case, 256), body, n, describe=describe)
+        found = core.run_hypothesis(rep, gen.case_strategy(build_case, 256), body, n, describe=describe)
+        if not found:
+            # keys installed after discovery (real clients, also after a failed first attempt): what such a session signs
+            # and encrypts with must be the RFC 3414 derivation for the *agent's* engine id
+            from checks import v3hist
+            v3hist.discovered_stage(rep, G, "C12", 120 if tier == "quick" else 2500, True, False,
+                                    ("mac-wrong", "request-not-well-formed", "privacy-mismatch"))
     finally:
         link.close()
 
 
 def replay(rep, case, body=None):
+    if case.get("_stage") == "discovered":
+        from checks import v3hist
+        return v3hist.replay_discovered(rep, case)
     G = drivers.load()
     link = ag.NbLink()
     c = dict(case)
